@@ -702,6 +702,25 @@ class Machine:
         self.assume(b if c else z3.Not(b))
         return c
 
+    def index_interval(self, iv, n):
+        """-> (lo, hi): the least and greatest feasible value of the unsigned symbolic integer iv (known < n) under the path condition"""
+        lo, hi = 0, n - 1
+        while lo < hi:
+            mid = (lo + hi) // 2
+            if self.feasible(z3.ULE(iv.v, mid)):
+                hi = mid
+            else:
+                lo = mid + 1
+        least = lo
+        lo, hi = least, n - 1
+        while lo < hi:
+            mid = (lo + hi + 1) // 2
+            if self.feasible(z3.UGE(iv.v, mid)):
+                lo = mid
+            else:
+                hi = mid - 1
+        return least, lo
+
     def concretize(self, iv, candidates=None, limit=70000):
         """make a symbolic integer concrete by forking over its feasible values (candidates first)"""
         if not iv.sym():
